@@ -66,7 +66,7 @@ def path_steps(draw, g, lm, ids):
 
 @st.composite
 def strategy_(draw, tier):
-    g = draw(gen_graph.raw_gfa(max_nodes=7, max_links=12, seq_mode="seq",
+    g = draw(gen_graph.raw_gfa(max_nodes=7, max_links=12, seq_mode="seq", soft_masked=True,
                                id_pool=["a", "b", "c", "s1", "s2", "s10", "n3", "0", "x_y"]))
     ids = [s[0] for s in g["segments"]]
     lm = models.LinkModel([l[:4] for l in g["links"]])
@@ -123,6 +123,8 @@ def run_case(case):
                        rp, r2[1], models.revcomp(e))
             if len(steps) >= 2:
                 classes.add("walk>=2" if e else "nonwalk>=2")
+                if e and any(o == "<" and segs[n][0] != segs[n][0].upper() for o, n in steps):
+                    classes.add("soft_masked_node_reversed")
                 for (o1, n1), (o2, n2) in zip(steps, steps[1:]):
                     if n1 == n2:
                         classes.add("selfstep")
